@@ -7,7 +7,7 @@ from typing import Dict, List, Optional, Tuple
 from sa.canon import canon
 from sa.peval import peval
 from sa.report import Ctx
-from sa.sym import FALSE, NONE, NOT, Summary, bind_args, conjuncts, show, walk
+from sa.sym import callkw, FALSE, NONE, NOT, Summary, bind_args, conjuncts, show, walk
 
 MATCH = "soundevent.evaluation.match"
 AFF = "soundevent.evaluation.affinity"
@@ -69,7 +69,7 @@ class C07:
         LEN = lambda x: ("call", ("builtin", "len"), (x,), ())
         shape = None
         if mat[0] == "call" and mat[1][0] == "ext" and mat[1][1] in ("numpy.zeros", "numpy.empty", "numpy.full"):
-            kw = dict(mat[3])
+            kw = callkw(mat)
             shape = kw.get("shape", mat[2][0] if mat[2] else None)
         if shape == ("tuple", (LEN(src), LEN(tgt))) and mat[1][1] == "numpy.zeros":
             ctx.ok("R07.1", site, "matrix = zeros((len(source), len(target)))")
@@ -174,7 +174,7 @@ class C07:
             ctx.undec("R07.2", site, f"{len(lsa)} linear_sum_assignment calls")
             return
         call = lsa[0].term
-        kw = dict(call[3])
+        kw = callkw(call)
         arg0 = call[2][0] if call[2] else kw.get("cost_matrix")
         maxim = kw.get("maximize", call[2][1] if len(call[2]) > 1 else ("const", False))
         if not solver:
